@@ -26,7 +26,8 @@ def leaf(env, e, inp, key, kind, varname, variables):
         return '{1,2}', None
     if kind == 'ok':
         if env.symbolic:
-            inp[key] = e.fresh_int(key, -99999, 99999)
+            # non-error leaves are non-zero so that a '/' above them cannot itself produce #DIV/0!
+            inp[key] = e.fresh_int(key, 1, 99999)
         variables[varname] = inp[key]
         return varname, None
     if kind == 'var9':
